@@ -1,7 +1,5 @@
 package crypto
 
-type thrScen struct{}
 type vrfScen struct{}
 
-func (d *drv) thr(s thrScen, i int) {}
 func (d *drv) vrf(s vrfScen, i int) {}
